@@ -182,21 +182,28 @@ func qShort(q string) string {
 
 // offer is one element of the offers list.
 type offer struct {
-	text   string
-	typ    string // media, explicit MIME only
-	sub    string
-	ext    bool // given as file extension
-	params []prm
-	sp     []bool // space after the i-th ';'
+	text string
+	typ  string // media, explicit MIME only
+	sub  string
+	ext  bool // given as file extension
+	// extName is the extension of an offer given as extension that may carry parameters
+	// (`json;profile="https://example.com/schemas/user"`); typ/sub stay empty for those
+	extName string
+	params  []prm
+	sp      []bool // space after the i-th ';'
 }
 
 func renderOffer(o *offer, spaces []bool) {
 	o.sp = spaces
-	if o.ext || o.typ == "" {
+	if o.typ == "" && o.extName == "" {
 		return
 	}
 	var b strings.Builder
-	b.WriteString(o.typ + "/" + o.sub)
+	if o.extName != "" {
+		b.WriteString(o.extName)
+	} else {
+		b.WriteString(o.typ + "/" + o.sub)
+	}
 	for i, p := range o.params {
 		b.WriteByte(';')
 		if i < len(spaces) && spaces[i] {
@@ -306,7 +313,11 @@ var pvalsTok = []string{"1", "2", "utf-8", "flowed", "x"}
 // quoted-pairs. The second row ends in an escaped backslash or stacks backslashes and quotes:
 // `dir\` is spelled "dir\\", `x\"` is spelled "x\\\"" — the closing quote follows a backslash there.
 var pvalsQuotedOnly = []string{"x,y", `x"y`, `x\y`, "x;q=0", "x y", ",", `"`,
-	`dir\`, `\`, `\\`, `a\\b`, `x\"`, `"\`, `x\",y`, `c:\d\`, `\"\`}
+	`dir\`, `\`, `\\`, `a\\b`, `x\"`, `"\`, `x\",y`, `c:\d\`, `\"\`,
+	"https://example.com/schemas/user", "a/b", "k=v"}
+
+// values holding '/', '=', ';' or ',' : harmless inside a quoted-string, meaningful outside
+var delimVals = []string{"https://example.com/schemas/user", "a/b", "k=v", "/", "x;y", "p,q", "text/html", "a=b/c;d,e"}
 
 var qLits = []string{"0.001", "0.1", "0.3", "0.5", "0.50", "0.500", "0.7", "0.9", "0.999", "1", "1.", "1.0", "1.000", "0.25", "0.75"}
 var qZero = []string{"0", "0.", "0.0", "0.00", "0.000"}
@@ -542,11 +553,9 @@ func genOffers(r *gen.Rand, k int, h []rng, allowExt, allowEmpty bool) []offer {
 		}
 		if allowExt && r.Chance(1, 5) {
 			if e := extOf(o.typ + "/" + o.sub); e != "" {
-				o.ext = true
-				o.text = e
+				// an extension offer, with or without parameters
+				o.ext, o.extName, o.text = true, e, e
 				o.typ, o.sub = "", ""
-				os = append(os, o)
-				continue
 			}
 		}
 		if src != nil && len(src.params) > 0 {
@@ -581,6 +590,10 @@ func genOffers(r *gen.Rand, k int, h []rng, allowExt, allowEmpty bool) []offer {
 			}
 		} else if r.Chance(1, 6) {
 			o.params = append(o.params, genParam(r, false))
+		}
+		if (o.ext && r.Chance(1, 3)) || r.Chance(1, 12) {
+			// a quoted value with delimiters of the surrounding syntax inside
+			o.params = append(o.params, prm{name: gen.Pick(r, []string{"profile", "schema", "a"}), val: gen.Pick(r, delimVals), quoted: true})
 		}
 		sp := make([]bool, len(o.params))
 		for j := range sp {
